@@ -40,10 +40,11 @@ type AssumeFailure struct{}
 
 func (AssumeFailure) Error() string { return "ZZVERIF-ASSUME-FAIL" }
 
-func load() {
-	if loaded {
-		return
-	}
+var loadOnce sync.Once
+
+func load() { loadOnce.Do(doLoad) }
+
+func doLoad() {
 	loaded = true
 	vals = map[string]json.RawMessage{}
 	if p := os.Getenv("ZZVERIF_SCRIPT"); p != "" {
@@ -72,6 +73,7 @@ func Reset() {
 }
 
 func logLine(format string, a ...interface{}) {
+	load()
 	if logf != nil {
 		fmt.Fprintf(logf, format+"\n", a...)
 	}
